@@ -128,6 +128,15 @@ func main() {
 		h = append(h, opJ{K: "sync"}, opJ{K: "reopen"}, opJ{K: "consume", N: 1})
 		corpus = append(corpus, h)
 	}
+	{ // a group created after the queue's acknowledged position has advanced: its small ack must not pull it back
+		h := []opJ{{K: "create", N: 1}, {K: "append", V: 6}}
+		for i := 0; i < 6; i++ {
+			h = append(h, opJ{K: "consume", N: 1})
+		}
+		h = append(h, opJ{K: "ack", N: 1, V: 5}, opJ{K: "sync"}, opJ{K: "gc"}, opJ{K: "create", N: 2},
+			opJ{K: "consume", N: 2}, opJ{K: "ack", N: 2, V: 0}, opJ{K: "sync"}, opJ{K: "reopen"}, opJ{K: "consume", N: 2})
+		corpus = append(corpus, h)
+	}
 
 	nHist := cfg.N
 	for hi := 0; hi < nHist+len(corpus); hi++ {
@@ -138,6 +147,29 @@ func main() {
 		}
 		big := hi >= len(corpus) && r.Chance(6) // cross an index page boundary, so that GC really removes a page
 		nOps := r.Range(10, 70)
+		// a third of the random histories start with a group that is created late: the first group has consumed and
+		// acknowledged far ahead and the queue was synced before the second group exists
+		var prefix []opJ
+		if hi >= len(corpus) && r.Chance(33) {
+			g1 := r.Range(1, 4)
+			g2 := g1%4 + 1
+			k := r.Range(3, 12)
+			prefix = append(prefix, opJ{K: "create", N: g1}, opJ{K: "append", V: int64(k)})
+			for i := 0; i < k; i++ {
+				prefix = append(prefix, opJ{K: "consume", N: g1})
+			}
+			prefix = append(prefix, opJ{K: "ack", N: g1, V: int64(k - 1 - r.Intn(2))}, opJ{K: "sync"})
+			if r.Chance(40) {
+				prefix = append(prefix, opJ{K: "gc"})
+			}
+			prefix = append(prefix, opJ{K: "create", N: g2})
+			j := r.Range(1, 3)
+			for i := 0; i < j; i++ {
+				prefix = append(prefix, opJ{K: "consume", N: g2})
+			}
+			prefix = append(prefix, opJ{K: "ack", N: g2, V: int64(j - 1)}, opJ{K: "sync"})
+			nOps += len(prefix)
+		}
 		var ops []opJ
 		var obs []string
 		stoppedEver, afterConsume := false, false
@@ -149,6 +181,8 @@ func main() {
 					break
 				}
 				o = corpus[hi][step]
+			} else if step < len(prefix) {
+				o = prefix[step]
 			} else {
 				var ids []int
 				for n := range w.groups {
